@@ -7,7 +7,7 @@ LEVEL = "exploration"
 TECHNIQUE = "runtime monitoring: prefix / frozen-record comparison on every pair of consecutive persisted states"
 RULE = ("all generated classes (multiply-referenced tasks, integer and all joins, with-items, retries, loops) x hashed "
         "outcomes x seeded schedules with control requests, crashes and reruns of failed workflows; after EVERY API call "
-        "the persisted state is compared with the previous one; non-trivial = history in which the sequence grew while "
+        "the persisted state is compared with the previous one (identity, context references, status, decisions and published references of every record; every other field of a finished, decided record except the terminal marker that a rerun clears by design); non-trivial = history in which the sequence grew while "
         "at least 2 earlier records existed; distinct = (definition, history) digest")
 ASSUMPTIONS = ASSUME_SIM
 
